@@ -98,13 +98,13 @@ CHECKS = {
     "C10": dict(level="exploration", engine="ondemand",
                 jobs=lambda t: J("ondemand", "prod-hsw", ["--prop", "C10"]) + J("ondemand", "asan-hsw", ["--prop", "C10"]) + J("ondemand", "prod-wsm", ["--prop", "C10"]) + J("ondemand", "prod-dyn", ["--prop", "C10"]) +
                 J("tsanrun", "tsan", ["--only", "TAo_ondemand_in_threads"], env={"TSAN_OPTIONS": "halt_on_error=1:exitcode=66:report_signal_unsafe=0"}, label="tsan/on-demand-in-threads"),
-                budget=dict(quick=300, thorough=3000),
+                budget=dict(quick=300, thorough=5000),
                 rule="differential: for every valid text x pointer path, GetOnDemand succeeds <=> AtPointer on the fully parsed document resolves (and the reference lookup agrees); on success the slice lies inside the input and parses to the identical value, ParseOnDemand yields it; on failure error != 0, slice empty, ParseOnDemand errors and stays null; every path is also given as a JsonPointerView (identical outcome); a last job runs on-demand lookups through escaped keys from three threads under ThreadSanitizer. Evaluations count (text,path) pairs."),
     "C11": dict(level="exploration", engine="ondemand",
                 jobs=lambda t: J("ondemand", "asan-hsw", ["--prop", "C11"]) + J("ondemand", "prod-hsw", ["--prop", "C11"]) + J("ondemand", "prod-wsm", ["--prop", "C11"]) +
                 (J("ondemand", "asan-wsm", ["--prop", "C11"]) + J("ondemand", "prod-dyn", ["--prop", "C11"]) if t == "thorough" else []),
                 rule="every text (valid or not, incl. empty and every truncation) x path: GetOnDemand/ParseOnDemand on an exact-size heap block (ASan) and on a buffer ending on the last mapped byte / starting right after a PROT_NONE page (production build): no fault; success => slice is a sub-range of the input and offset <= len; failure => slice empty; and with the input placed as a view in front of readable quotes / closers / backslashes / openers the outcome must be the one of the exact-size placement. Evaluations count (text,path,placement) calls; non-trivial: text of >= 2 bytes."),
-    "C19": dict(level="exploration", engine="schemaenum", budget=dict(quick=180, thorough=3000),
+    "C19": dict(level="exploration", engine="schemaenum", budget=dict(quick=300, thorough=3000),
                 jobs=lambda t: J("schemaenum", "prod-hsw", []) + J("schemaenum", "asan-hsw", [], fills=[0x06, 0x0c] if t == "quick" else FILLS_T),
                 rule="all pairs (existing document E, valid text T) of duplicate-free values up to a token budget, plus re-spaced texts and repeated application (E,T1,T2): result of ParseSchema read back through the accessors must equal merge(E,T) (E's key set and order at every level where both sides are non-empty objects, T's value elsewhere); no error; ASan-clean for pool and freeing allocators under several heap-fill bytes."),
     "C20": dict(level="exploration", engine="lazyenum",
